@@ -63,6 +63,7 @@ type Contract struct {
 	AssignsAll    bool
 	Stable        []Clause // closures: predicates over captured variables preserved by every call
 	Signals       []Clause // goroutine bodies: WaitGroups on which the function calls Done() exactly once
+	ZeroOffsets   bool     // every slice result starts at offset 0 of its backing array (proved at exit, structural at call sites)
 	SelfCallback  bool     // closures: a callback of unknown identity passed on by this closure is the closure itself
 	Callbacks     []string // externs: parameters that are callbacks invoked any number of times
 	HasAssigns    bool
@@ -329,7 +330,7 @@ func (db *SpecDB) LoadSpecFile(path string) error {
 			db.Axioms = append(db.Axioms, c)
 			db.Markers = append(db.Markers, "axiom "+c.Label)
 			cur = nil
-		case "requires", "ensures", "defines", "stable", "callback", "selfcallback", "signals", "panics", "assigns", "loop", "property", "inline", "pure", "nosafety", "opaque", "params", "results", "calls", "frameprop", "trusted", "purecallbacks":
+		case "requires", "ensures", "defines", "stable", "callback", "selfcallback", "signals", "zerooffsets", "panics", "assigns", "loop", "property", "inline", "pure", "nosafety", "opaque", "params", "results", "calls", "frameprop", "trusted", "purecallbacks":
 			if cur == nil {
 				return fail(fmt.Errorf("clause outside a contract"))
 			}
@@ -366,6 +367,8 @@ func (db *SpecDB) LoadSpecFile(path string) error {
 					return fail(err)
 				}
 				cur.Signals = append(cur.Signals, c)
+			case "zerooffsets":
+				cur.ZeroOffsets = true
 			case "selfcallback":
 				cur.SelfCallback = true
 				db.Markers = append(db.Markers, "selfcallback "+cur.Name)
@@ -475,7 +478,7 @@ func (db *SpecDB) LoadSpecFile(path string) error {
 	return nil
 }
 
-var keywords = map[string]bool{"macro": true, "functype": true, "global": true, "func": true, "extern": true, "method": true, "ufun": true, "fun": true, "axiom": true, "const": true, "defines": true, "monitor": true, "protects": true, "invariant": true, "stable": true, "callback": true, "selfcallback": true, "signals": true,
+var keywords = map[string]bool{"macro": true, "functype": true, "global": true, "func": true, "extern": true, "method": true, "ufun": true, "fun": true, "axiom": true, "const": true, "defines": true, "monitor": true, "protects": true, "invariant": true, "stable": true, "callback": true, "selfcallback": true, "signals": true, "zerooffsets": true,
 	"requires": true, "ensures": true, "panics": true, "assigns": true, "loop": true, "property": true, "inline": true, "pure": true,
 	"nosafety": true, "opaque": true, "params": true, "results": true, "calls": true, "frameprop": true, "trusted": true, "purecallbacks": true}
 
